@@ -360,6 +360,15 @@ class Inliner:
                     lay_span = tt.get("layout_span", tt["span"])
                     break
                 pend = tt.get("target") if tt["k"] in ("goto", "drop", "false_edge") else None
+        # the compiler's layout of the helper's coroutine (what it keeps alive at each of its own suspension points) is
+        # composed with the caller's layout at the await of the helper: at an inlined suspension point both are alive
+        cl, kl = caller.get("layout"), cor.get("layout")
+        if cl and kl:
+            off = len(cl["saved"])
+            base = [v for v in cl["variants"] if v["span"] == lay_span] if lay_span is not None else []
+            base_fields = list(base[0]["fields"]) if len(base) == 1 else []
+            caller["layout"] = {"saved": list(cl["saved"]) + list(kl["saved"]),
+                                "variants": list(cl["variants"]) + [{"fields": [off + i for i in v["fields"]] + base_fields, "span": v["span"], "inl": cor["def"]} for v in kl["variants"]]}
         ctx_local = 2 if caller.get("coroutine_kind") else None
         n0 = len(cor["blocks"])
         lm, bm, lbase, bbase, newb = self._splice(caller, cor, up, ctx_local)
